@@ -17,7 +17,7 @@ are in addition given over a linear order.  `({} : PState α)` is a freshly cons
 set_option linter.unusedSectionVars false
 
 namespace C03
-open AGP Proc
+open AGP AGP.Ctl Proc
 
 section generic
 variable {α : Type} [Add α] [Sub α] [Mul α] [Div α] [Neg α] [LT α] [LE α]
